@@ -12,16 +12,16 @@ PROPS = {
     "C01": {"units": ["glue", "streams"]},
     "C02": {"units": ["glue", "range", "streams"]},
     "C03": {"units": ["glue", "range"]},
-    "C04": {"units": ["glue", "cond"]},
-    "C05": {"units": ["glue"]},
+    "C04": {"units": ["glue", "cond", "etag"]},
+    "C05": {"units": ["glue", "etag"]},
     "C06": {"units": ["glue", "streams"]},
     "C07": {"units": ["streams"]},
     "C08": {"units": ["chunker"]},
     "C10": {"units": ["chunker"]},
     "C11": {"units": ["chunker"]},
     "C12": {"units": ["streams", "chunker"]},
-    "C13": {"units": ["glue", "range", "cond", "streams"]},
-    "C14": {"units": ["glue", "cond"]},
+    "C13": {"units": ["glue", "range", "cond", "etag", "streams"]},
+    "C14": {"units": ["glue", "cond", "etag"]},
     "C15": {"units": ["glue"]},
     "C20": {"units": ["streams", "chunker"]},
 }
